@@ -175,6 +175,23 @@ func runConcurrent(t lib.TB, test string, cs concCaseT) (nt bool) {
 		m.commit(string(root), v)
 	}
 	prepared := append([]string{}, m.corder...)
+	// class of the listed finding C04-memtree-pending-poison (see c04_test.go): while it is listed, pairs that would
+	// write the value the parent already has are left out of the updates under prefix + memTree
+	if (cs.Cfg.Prefix || cs.Cfg.Prune) && cs.Cfg.MemTree && lib.Known(knownPoison) {
+		for _, ts := range cs.Workers {
+			for i := range ts {
+				var kept [][2]string
+				for _, p := range ts[i].KV {
+					if old, ok := m.committed[prepared[ts[i].Parent]].content[p[0]]; ok && old == p[1] {
+						lib.ExcludedKnown(knownPoison)
+						continue
+					}
+					kept = append(kept, p)
+				}
+				ts[i].KV = kept
+			}
+		}
+	}
 
 	// phase 2, concurrent
 	var wg sync.WaitGroup
